@@ -565,15 +565,27 @@ class Connection(ExportImport):
         self._added_during_commit = None
 
     def _store_objects(self, writer, transaction):
+        storing = []
         try:
-            self._store_objects_of(writer, transaction)
+            self._store_objects_of(writer, transaction, storing)
         except:  # noqa: E722 do not use bare 'except'
             # New objects that the writer has given an oid and this
             # connection while it serialized an object referring to them
-            # are still waiting to be stored.  They have no record and are
-            # not in the cache, so nothing else can find and disown them,
-            # and a dangling reference would be written when they are
-            # attached again.
+            # are still waiting to be stored, and the object whose
+            # serialization or store failed may be new as well.  They have
+            # no record and are not in the cache, so nothing else can find
+            # and disown them, and a dangling reference would be written
+            # when they are attached again.
+            for obj in storing:
+                if (getattr(obj, '_p_serial', z64) == z64
+                        and self._cache.get(obj._p_oid) is not obj):
+                    if self._creating.pop(obj._p_oid, True):
+                        del obj._p_jar
+                        del obj._p_oid
+                    else:
+                        # added explicitly, and registered: abort() takes
+                        # care of it, as of any object in _added
+                        self._added[obj._p_oid] = obj
             for obj in writer:
                 if (getattr(obj, '_p_serial', z64) == z64
                         and obj._p_oid not in self._creating
@@ -583,8 +595,9 @@ class Connection(ExportImport):
                     del obj._p_oid
             raise
 
-    def _store_objects_of(self, writer, transaction):
+    def _store_objects_of(self, writer, transaction, storing):
         for obj in writer:
+            storing[:] = [obj]
             oid = obj._p_oid
             serial = getattr(obj, "_p_serial", z64)
 
